@@ -83,8 +83,10 @@ def ftxt_values(rng, n):
     """binary64 values for the amount-text model: (class, double)"""
     out = []
     for _ in range(n):
-        k = rng.below(12)
-        if k == 0:      # any finite bit pattern
+        k = rng.below(13)
+        if k == 12:     # exact ties BETWEEN two shortest candidates: 16 significant digits, ulp 1/8, fraction .25 / .75
+            out.append(("short-tie", float((1 << 49) + rng.below(1 << 49)) + [0.25, 0.75][rng.below(2)]))
+        elif k == 0:    # any finite bit pattern
             b = rng.below(1 << 64)
             if (b >> 52) & 0x7ff == 0x7ff:
                 b &= ~(1 << 62)
